@@ -10,6 +10,10 @@ from vflib.ref.betting import RefRound
 
 PROP = 'C03'
 RULE = (
+    '(i) bounded-exhaustive: the COMPLETE decision trees of small games '
+    '(2-3 players, stacks of 1-8 chips, hold\'em NL/FL, PLO, Kuhn, razz, '
+    'single draw; every fold/call/raise amount/discard/show-or-muck '
+    'choice) are walked under the same monitors (vflib.explore); (ii) '
     'seeded random hands on all structures (fixed/pot/no-limit) x modes x '
     'blind/straddle/post/bring-in layouts x caps (4 / None / 0-3 on custom '
     'games), stacks near the thresholds, 2-9 players, int and Fraction '
@@ -38,7 +42,8 @@ REQUIRED = ('decisions_checked', 'raise_intervals_probed', 'cap_refusals',
             'bring_in_decisions', 'completions', 'fold_refused_tournament',
             'fold_warned_cash', 'rounds_with_raise',
             'pot_limit_probes', 'fixed_limit_probes',
-            'pot_limit_probes_raked_pot')
+            'pot_limit_probes_raked_pot',
+            'trees_completed', 'explored_nodes')
 
 BETTING = ('Folding', 'CheckingOrCalling', 'BringInPosting',
            'CompletionBettingOrRaisingTo')
@@ -294,6 +299,8 @@ def after_hand(ctx, res):
 def run_shard(seed, shard, of, tier, deadline):
     return hist.run_history_shard(
         PROP, seed, shard, of, tier, deadline, cases=CASES,
+        explore_s={'quick': 8, 'thorough': 100},
+        explore_nodes={'quick': 2500, 'thorough': 40000},
         gen_kwargs=gen_kwargs, make_monitors=make_monitors,
         nontrivial=nontrivial, pol_tweak=pol_tweak, cfg_filter=cfg_filter)
 
